@@ -255,6 +255,10 @@ impl<
         let mut reference_node = self.allocator.get_field(Field::Root);
 
         if reference_node == SENTINEL {
+            if self.is_full() {
+                return None;
+            }
+
             let root = self.add(key, value);
             self.allocator.set_field(Field::Root, root);
             return Some(root);
